@@ -199,6 +199,34 @@ def admitting_exits(func):
             continue
         if c[0] == "construct" and len(c) > 2 and c[2] == ("lit", False):
             continue
+        # single-exit form: `return make_pair(found, dest)` with a local flag -> the admitting points are the stores of true
+        flag = None
+        if c[0] == "call" and c[1] == "make_pair" and len(c) > 3 and c[3][0] == "var":
+            flag = c[3]
+        elif c[0] == "construct" and len(c) > 2 and c[2][0] == "var":
+            flag = c[2]
+        elif c[0] == "var":
+            flag = c
+        if flag is not None:
+            d = func.unit.by_id.get(flag[1])
+            is_bool = d is not None and d.get("kind") == "VarDecl" and qt(d).replace("const ", "").strip() == "bool"
+            if is_bool:
+                stores = []
+                init = children(d)
+                if init and canon(init[-1]) == ("lit", True):
+                    stores.append(d)
+                for y in walk(func.body):
+                    if y.get("kind") == "BinaryOperator" and y.get("opcode") == "=":
+                        l, r = children(y)
+                        if canon(l)[:2] == flag[:2]:
+                            rc = canon(r)
+                            if rc == ("lit", False):
+                                continue
+                            stores.append(y)
+                if stores:
+                    for y in stores:
+                        out.append((y, c))
+                    continue
         out.append((x, c))
     return out
 
@@ -315,6 +343,8 @@ def same_block(g, a, b):
 def check_commits(ctx, rep, rid):
     prog = ctx.prog
     # ---- Abacus ----
+    from .common import member_q
+    ROWLIST = member_q(prog, CQ + "AbacusLegalizer", "rowToCells_", lambda t: "vector<std::vector<int" in t.replace(" ", "").replace("std::vector<std::vector<int", "vector<std::vector<int"))
     f = prog.func1(CQ + "AbacusLegalizer::placeCell")
     g = cfg_of(f)
     cellp = f.params[0]
@@ -334,13 +364,13 @@ def check_commits(ctx, rep, rid):
         flag = [y for y in walk(f.body) if y.get("kind") in ("BinaryOperator", "CXXOperatorCallExpr") and
                 _store_target(canon(y)) == ("index", ("field", CQ + "LegalizerBase::cellIsPlaced_", ("this",)), cv)]
         lst = [y for y in walk(f.body) if y.get("kind") == "CXXMemberCallExpr" and callee_info(y)["name"] == "push_back" and
-               canon(callee_info(y)["obj"]) == ("index", ("field", CQ + "AbacusLegalizer::rowToCells_", ("this",)), R)]
+               canon(callee_info(y)["obj"]) == ("index", ("field", ROWLIST, ("this",)), R)]
         together = flag and lst and same_block(g, g.node_for(x), g.node_for(flag[0])) and same_block(g, g.node_for(x), g.node_for(lst[0]))
-        what = "commit rowLegalizers_[%s].push" % pretty(R)
+        what = "commit %s.push" % pretty(oc)
         if not ok:
             rep.violation(rid, x, f, what, why, key="AbacusLegalizer::placeCell|commit not admitted")
         elif not together:
-            rep.violation(rid, x, f, what, "the row push, rowToCells_[row].push_back(cell) and cellIsPlaced_[cell] = true are not performed together on the same row",
+            rep.violation(rid, x, f, what, "the row push, the push of the cell into the row's cell list and cellIsPlaced_[cell] = true are not performed together on the same row",
                           key="AbacusLegalizer::placeCell|commit parts separated")
         else:
             rep.holds(rid, x, f, what, why)
@@ -603,7 +633,19 @@ def check_keep(ctx, rep):
     for c in ctor:
         init = [x for x in walk(c.body) if x.get("kind") in ("CXXOperatorCallExpr", "BinaryOperator") and _store_target(canon(x)) == ("field", CQ + "LegalizerBase::cellToOrientation_", ("this",))]
         others = [u for x, u in eff.summary(c)["writes"].get(CQ + "LegalizerBase::cellToOrientation_", []) if u.why not in ("operator=", "constructor initialiser")]
-        if init and canon(init[0])[3] == ("field", CQ + "LegalizerBase::cellTargetOrientation_", ("this",)) and not others:
+        # member initialisers: cellToOrientation_(src) with src the input orientations or what they were initialised from
+        minit = {}
+        for ci_ in c.ctor_inits:
+            an = ci_.get("anyInit") or {}
+            if an.get("name") and children(ci_):
+                minit[an.get("name")] = canon(children(ci_)[-1])
+        tgt_src = minit.get("cellTargetOrientation_")
+        res_src = minit.get("cellToOrientation_")
+        by_list = res_src is not None and not init and (res_src == ("field", CQ + "LegalizerBase::cellTargetOrientation_", ("this",)) or
+                                                        (tgt_src is not None and res_src == tgt_src))
+        if by_list and not others:
+            rep.holds("KO", c.decl, c, "result orientations are initialised (member initialiser) from the same source as the input orientations")
+        elif init and canon(init[0])[3] == ("field", CQ + "LegalizerBase::cellTargetOrientation_", ("this",)) and not others:
             rep.holds("KO", init[0], c, "result orientations start as a copy of the input orientations")
         else:
             rep.violation("KO", (init or [c.decl])[0], c, "result orientations are not initialised from the input orientations",
